@@ -4,7 +4,7 @@
 # against it (VERIF_REPO), and removes the change again.  /repo itself is never touched.
 set -u
 PATCH=$(readlink -f "$1"); shift
-SR=/tmp/seedrepo
+SR=${SEEDREPO:-/tmp/seedrepo}
 if [ ! -d $SR ]; then git -C /repo worktree add -q --detach $SR HEAD || exit 2; fi
 git -C $SR checkout -q --detach "$(git -C /repo rev-parse HEAD)" && git -C $SR checkout -q -- . && git -C $SR clean -fdq
 git -C $SR apply "$PATCH" || { echo "patch does not apply"; exit 2; }
